@@ -5,8 +5,9 @@ from .. import core, takio
 from ..core import cz, clist, copt
 
 ID = "C07"
-THEOREMS = ["C07_table_is_universe", "C07_table_nodup", "C07_bijection", "C07_ids_fit_head", "C07_counts_tie"]
-MODEL_TARGETS = ["model/Tak.vo", "model/Harness.vo", "model/Lit.vo"]
+THEOREMS = ["C07_table_is_universe", "C07_table_nodup", "C07_bijection", "C07_ids_fit_head", "C07_counts_tie",
+            "C07_source_table_is_model", "C07_source_all_slides_is_model"]
+MODEL_TARGETS = ["model/Tak.vo", "model/Harness.vo", "model/Lit.vo", "model/PySem.vo"]
 TRUSTED_BASE = ["python dict/list semantics behind MOVES_TO_ID / MOVES_BY_SIZE (validated exhaustively by the correspondence)"]
 ASSUMPTIONS = ["head width is read from a constructed tak.model.heads.PolicyValue and compared with MAX_MOVE_ID"]
 
@@ -147,3 +148,9 @@ def replay(run, rp):
     cs, *_ = _cases_tables(run)
     failing, shard_fail, _ = cs.run()
     return {"violates": bool(failing or shard_fail), "failing": failing, "n_moves": len(ms)}
+
+
+def pregen(run):
+    """regenerate gen/GameGen.v (all_moves_for_size, ALL_SLIDES among others) from the tree under test"""
+    from . import c01gen
+    return c01gen.pregen(run)
